@@ -59,6 +59,34 @@ let cmd_iface toks =
   let out = (if kind = "safe" then compute_safe else compute_plain) fl si (mode_of m) x v t in
   String.concat " " (List.map hx out)
 
+(* ---- C03: builder: c03 ndecl decl.. ninit init.. nrx (nre re.. npr pr.. ndre .. ndpr ..)*  then
+        params(list) props(nrx) npts (x list, t)*  ->  species order | S | Sd | derivatives ---- *)
+let cmd_c03 toks =
+  let (decl, r) = pop_list pop_nat toks in let (initk, r) = pop_list pop_nat r in
+  let (nrx, r) = pop_int r in
+  let pop_rx r = let (a, r) = pop_list pop_nat r in let (b, r) = pop_list pop_nat r in
+    let (c, r) = pop_list pop_nat r in let (d, r) = pop_list pop_nat r in
+    ({ rx_reactants = a; rx_products = b; rx_dreactants = c; rx_dproducts = d }, r) in
+  let (rxs, r) = pop_n pop_rx nrx r in
+  let sp = species_order decl rxs initk in
+  let s = build_S sp rxs and sd = build_Sd sp rxs in
+  let buf = Buffer.create 256 in
+  let out x = Buffer.add_string buf x; Buffer.add_char buf ' ' in
+  out "SP"; List.iter (fun n -> out (string_of_int (int_of_nat n))) sp;
+  out "S"; List.iter (List.iter (fun z -> out (string_of_int (int_of_z z)))) s;
+  out "SD"; List.iter (List.iter (fun z -> out (string_of_int (int_of_z z)))) sd;
+  (match r with
+   | [] -> ()
+   | _ ->
+     let (p, r) = pop_flist r in let (props, r) = pop_n pop_prop nrx r in
+     let si = { si_props = props; si_S = s; si_Sd = sd; si_params = p; si_nspecies = nat_of_int (List.length sp) } in
+     let (npts, r) = pop_int r in
+     let rec pts n r = if n = 0 then () else begin
+       let (x, r) = pop_flist r in let (t, r) = pop_fl r in
+       out "D"; List.iter (fun v -> out (hx v)) (derivative fl si x t); pts (n - 1) r end in
+     pts npts r);
+  Buffer.contents buf
+
 let () =
   try
     while true do
@@ -69,6 +97,7 @@ let () =
         let res = try (match cmd with
           | "queue" -> cmd_queue toks
           | "prop" -> cmd_prop toks
+          | "c03" -> cmd_c03 toks
           | "iface" -> cmd_iface toks
           | _ -> "ERR unknown command " ^ cmd)
           with e -> "ERR " ^ Printexc.to_string e in
